@@ -392,7 +392,7 @@ class Engine:
             h = self.ghost_truth(v)
             if h is not None:
                 return h
-            if v.tag in ("obj", "frame", "msg"):
+            if v.tag in ("obj", "frame", "msg", "callback-result", "any"):
                 # an arbitrary Python object may be falsy (0, "", b"", an empty container): its truth value is an
                 # uninterpreted predicate of the object
                 return _TRUTHY(v.t)
@@ -616,6 +616,24 @@ class Engine:
 
     def s_Pass(self, s, fr):
         pass
+
+    def s_Delete(self, s, fr):
+        """`del lst[:]` -- empties a list IN PLACE: every holder of that list object sees it emptied.  Lists are modelled
+        as values, so this is only faithful for a list nobody else holds: emptying one that has been handed out (returned,
+        yielded) is an ownership failure, like appending to it."""
+        for t in s.targets:
+            if isinstance(t, ast.Subscript) and isinstance(t.slice, ast.Slice) and t.slice.lower is None and t.slice.upper is None \
+                    and t.slice.step is None:
+                tgt = self.eval(t.value, fr)
+                if isinstance(tgt, Seq) and tgt.kind == "list":
+                    if tgt.aid is not None and tgt.aid in self.st.escaped:
+                        self.prove("ownership:%s:emptying-in-place-a-list-that-was-handed-out" % (fr.fi.qualname if fr.fi else "?"),
+                                   False, props=("C01", "C20"), where="%s:%d" % (fr.file, s.lineno))
+                    self.assign(_as_store(t.value), seq_lit("list", [], tgt.aid), fr)
+                    continue
+                if tgt is None:
+                    raise PyRaise("TypeError", ("'NoneType' object does not support item deletion",), s)
+            raise Unsupported("del of %s" % ast.unparse(t))
 
     def s_Expr(self, s, fr):
         if isinstance(s.value, ast.Constant) and isinstance(s.value.value, str):
@@ -2160,6 +2178,13 @@ class Engine:
             return v
         if is_int(v):
             return Fl(R(v))
+        if isinstance(v, (str, bytes)):
+            try:
+                return Fl(z3.RealVal(repr(float(v)))) if float(v) == float(v) and abs(float(v)) != float("inf") else Fl(z3.Real(fresh_name("nonfinite")))
+            except ValueError:
+                raise PyRaise("ValueError", ("could not convert string to float",), node)
+        if v is None or isinstance(v, (Seq, Ref, Opq, tuple, list, DictVal)):
+            raise PyRaise("TypeError" if not (isinstance(v, Opq) and v.tag == "str") else "ValueError", ("float() argument",), node)
         raise Unsupported("float() of %r" % (v,))
 
     def b_round(self, args, kwargs, node, fr):
@@ -2477,6 +2502,11 @@ class Engine:
                     raise PyRaise("ValueError", ("substring not found",), node)
             if name == "join":
                 return Opq(tag="str")
+        if isinstance(obj, Seq) and obj.kind == "str" and name in ("strip", "lstrip", "rstrip", "lower", "upper", "replace", "expandtabs", "casefold"):
+            # a string of symbolic content: the result is SOME string, not longer than the original for the strip family
+            n2 = z3.Int(fresh_name("str.len"))
+            self.assume(z3.And(n2 >= 0, n2 <= I(obj.n)) if name.endswith("strip") else n2 >= 0)
+            return Seq("str", n2, lambda i: Opq())
         if isinstance(obj, Opq) and obj.tag == "str":
             if name in ("format", "lower", "replace", "strip", "upper"):
                 h = self.st.ghost.get("opq_str_method")
